@@ -6,8 +6,9 @@
    finite and the scaled value 2.0**n_frac * x computed by the code is again a finite double.
    `fp_spec signed n_bits n_frac r` = clamp (Ztrunc (r * 2^n_frac)) is the property's first sentence
    read literally on the real number r (exact scaling, truncation toward zero, nearest end of the
-   range).  The guard -1074 <= n_frac <= 1023 is the range in which 2.0**n_frac is a non-zero double
-   (above it Python raises OverflowError, stated by C16_scale_overflow_error).
+   range).  The theorems about float_to_fp carry no guard beyond that domain and n_bits >= 1: they hold
+   for every n_frac for which Python can compute 2.0**n_frac at all (n_frac <= 1023, above which the
+   code raises OverflowError -- C16_scale_overflow_error -- down to scales that underflow to 0.0).
 
    Every theorem below depends, through Flocq's real-number specifications, on the axioms of Coq's
    classical real numbers only (ClassicalDedekindReals.sig_forall_dec, sig_not_dec,
@@ -22,14 +23,14 @@ Open Scope Z_scope.
 (* The result IS the exactly scaled value truncated toward zero and clamped to the format. *)
 Theorem C16_fp_exact :
   forall signed n_bits n_frac (x : b64),
-    1 <= n_bits -> -1074 <= n_frac <= 1023 -> in_domain n_frac x ->
+    1 <= n_bits -> in_domain n_frac x ->
     float_to_fp signed n_bits n_frac x = Ok (fp_spec signed n_bits n_frac (B2R x)).
 Proof. exact float_to_fp_exact. Qed.
 
 (* never leaves the range *)
 Theorem C16_fp_in_range :
   forall signed n_bits n_frac (x : b64) v,
-    1 <= n_bits -> -1074 <= n_frac <= 1023 -> in_domain n_frac x ->
+    1 <= n_bits -> in_domain n_frac x ->
     float_to_fp signed n_bits n_frac x = Ok v ->
     fmt_min signed n_bits <= v <= fmt_max signed n_bits.
 Proof. exact fp_in_range. Qed.
@@ -37,7 +38,7 @@ Proof. exact fp_in_range. Qed.
 (* monotone *)
 Theorem C16_fp_monotone :
   forall signed n_bits n_frac (x y : b64) vx vy,
-    1 <= n_bits -> -1074 <= n_frac <= 1023 -> in_domain n_frac x -> in_domain n_frac y ->
+    1 <= n_bits -> in_domain n_frac x -> in_domain n_frac y ->
     (B2R x <= B2R y)%R ->
     float_to_fp signed n_bits n_frac x = Ok vx -> float_to_fp signed n_bits n_frac y = Ok vy ->
     vx <= vy.
@@ -46,7 +47,7 @@ Proof. exact fp_monotone. Qed.
 (* the scaled, truncated value when that is representable ... *)
 Theorem C16_fp_truncates :
   forall signed n_bits n_frac (x : b64),
-    1 <= n_bits -> -1074 <= n_frac <= 1023 -> in_domain n_frac x ->
+    1 <= n_bits -> in_domain n_frac x ->
     fmt_min signed n_bits <= Ztrunc (B2R x * bpow radix2 n_frac) <= fmt_max signed n_bits ->
     float_to_fp signed n_bits n_frac x = Ok (Ztrunc (B2R x * bpow radix2 n_frac)).
 Proof. exact fp_truncates. Qed.
@@ -54,7 +55,7 @@ Proof. exact fp_truncates. Qed.
 (* ... and otherwise the nearest end of the range *)
 Theorem C16_fp_saturates :
   forall signed n_bits n_frac (x : b64),
-    1 <= n_bits -> -1074 <= n_frac <= 1023 -> in_domain n_frac x ->
+    1 <= n_bits -> in_domain n_frac x ->
     ((IZR (fmt_max signed n_bits) <= B2R x * bpow radix2 n_frac)%R ->
        float_to_fp signed n_bits n_frac x = Ok (fmt_max signed n_bits)) /\
     ((B2R x * bpow radix2 n_frac <= IZR (fmt_min signed n_bits))%R ->
@@ -64,7 +65,7 @@ Proof. exact fp_saturates. Qed.
 (* inside the range: less than one least-significant step (2^-n_frac) from the input *)
 Theorem C16_fp_within_one_lsb :
   forall signed n_bits n_frac (x : b64),
-    1 <= n_bits -> -1074 <= n_frac <= 1023 -> in_domain n_frac x ->
+    1 <= n_bits -> in_domain n_frac x ->
     (IZR (fmt_min signed n_bits) <= B2R x * bpow radix2 n_frac <= IZR (fmt_max signed n_bits))%R ->
     exists v, float_to_fp signed n_bits n_frac x = Ok v /\
               (Rabs (IZR v * bpow radix2 (- n_frac) - B2R x) < bpow radix2 (- n_frac))%R.
@@ -122,7 +123,7 @@ Proof. exact roundtrip_refuted. Qed.
 Theorem C16_numpy_agrees :
   forall signed n_bits n_frac (x : b64),
     n_bits = 8 \/ n_bits = 16 \/ n_bits = 32 \/ n_bits = 64 ->
-    -1074 <= n_frac <= 1023 -> in_domain n_frac x ->
+    in_domain n_frac x ->
     np_float_to_fix signed n_bits n_frac x = float_to_fp signed n_bits n_frac x.
 Proof. exact numpy_agrees. Qed.
 
@@ -136,6 +137,47 @@ Theorem C16_numpy_agrees_orig_refuted :
   np_float_to_fix_orig false 64 0 x_1e30 = Ok 0.
 Proof. exact numpy_agrees_orig_refuted. Qed.
 
+(* NumpyFixToFloatConverter (values / 2.0**n_frac) agrees bit for bit with fp_to_float
+   (value * 2.0**-n_frac) on every integer element, errors included. *)
+Theorem C16_numpy_back_agrees :
+  forall n_frac v, -1023 <= n_frac <= 1023 -> np_fix_to_float n_frac v = fp_to_float n_frac v.
+Proof. exact np_back_agrees. Qed.
+
+(* ---- deprecated unsigned-word variants ------------------------------------------------------------ *)
+
+(* float_to_fix (after the repair) returns the result of float_to_fp modulo 2^n_bits, for every format
+   its validation accepts ... *)
+Theorem C16_fix_agrees_mod_2n :
+  forall signed n_bits n_frac (x : b64),
+    valid_format signed n_bits n_frac -> in_domain n_frac x ->
+    exists v, float_to_fp signed n_bits n_frac x = Ok v /\
+              float_to_fix signed n_bits n_frac x = Ok (v mod 2 ^ n_bits).
+Proof. exact fix_agrees_mod_2n. Qed.
+
+(* ... and rejects every other format with the documented ValueError. *)
+Theorem C16_fix_invalid_format :
+  forall signed n_bits n_frac (x : b64),
+    n_bits < 1 \/ n_frac < 0 \/ n_bits - sbit signed < n_frac ->
+    float_to_fix signed n_bits n_frac x = Failed 0.
+Proof. exact fix_invalid_format. Qed.
+
+(* The code as found did not agree: with more than 53 integer bits the float upper bound rounds up,
+   the clip lets 2^n through and the mask wraps it.  x = 1e30. *)
+Theorem C16_fix_agrees_orig_refuted :
+  float_to_fp false 64 0 x_1e30 = Ok (2 ^ 64 - 1) /\
+  float_to_fix_orig false 64 0 x_1e30 = Ok 0 /\
+  float_to_fp true 64 0 x_1e30 = Ok (2 ^ 63 - 1) /\
+  float_to_fix_orig true 64 0 x_1e30 = Ok (2 ^ 63).
+Proof. exact fix_agrees_orig_refuted. Qed.
+
+(* fix_to_float reads the word as a two's-complement number and then converts exactly like
+   fp_to_float (bit for bit). *)
+Theorem C16_fix_to_float_agrees :
+  forall signed n_bits n_frac w,
+    valid_format signed n_bits n_frac -> 0 <= w < 2 ^ n_bits ->
+    fix_to_float signed n_bits n_frac w = fp_to_float n_frac (word_value signed n_bits w).
+Proof. exact unfix_agrees. Qed.
+
 (* ---- hypotheses are satisfiable ------------------------------------------------------------------ *)
 Example C16_domain_inhabited :
   in_domain 4 (b64_of_bits 0x3fe0000000000000) /\                     (* 0.5, S3.4: the docstring's example *)
@@ -143,3 +185,7 @@ Example C16_domain_inhabited :
   in_domain 0 x_1e30 /\ in_domain (-4) (b64_of_bits 1) /\             (* huge; smallest subnormal, underflowing scale *)
   float_to_fp true 8 (-4) (b64_of_bits 1) = Ok 0.
 Proof. exact domain_inhabited. Qed.
+
+Example C16_valid_format_inhabited :
+  valid_format true 64 0 /\ valid_format false 64 64 /\ valid_format true 8 4.
+Proof. exact valid_format_inhabited. Qed.
